@@ -48,6 +48,23 @@ func checkC09(p *core.Program, r *core.Report) {
 		return
 	}
 	h := handlers[0]
+	// the verification and report may sit in an unexported helper of the handler that hands its verdict back as
+	// an error: the handler is then the helper's only caller and the helper's paths are spliced into the handler's
+	var inlined *ssa.Function
+	ensureCallSites(p)
+	if res := h.Signature.Results(); res.Len() == 1 && types.TypeString(res.At(0).Type(), nil) == "error" && h.Object() != nil && !h.Object().Exported() {
+		var caller *ssa.Function
+		unique := true
+		for _, cs := range gCallSites[h] {
+			if caller != nil && caller != cs.Parent() {
+				unique = false
+			}
+			caller = cs.Parent()
+		}
+		if unique && caller != nil && p.PkgShort(caller) == "ship" {
+			inlined, h = h, caller
+		}
+	}
 	hn := shortFn(p.FnName(h))
 	isStateConstArg := func(in ssa.Instruction, c *types.Const) bool {
 		call, ok := in.(*ssa.Call)
@@ -152,6 +169,60 @@ func checkC09(p *core.Program, r *core.Report) {
 	type xitem struct {
 		core.PathItem
 		bind *ssa.Call
+		// pseudo item closing the spliced paths of a helper: nil-ness of the error it returns (0 unknown, 1 nil, 2 non-nil)
+		resOf  *ssa.Call
+		resNil int
+	}
+	// inlinePaths: the paths of the helper called at call, conditions bound to the call, closed by the result item
+	inlinePaths := func(call *ssa.Call) ([][]xitem, bool) {
+		t := call.Call.StaticCallee()
+		var out [][]xitem
+		ok := core.EnumPathItems(t, 512, func(items2 []core.PathItem, blocks2 []*ssa.BasicBlock, ret2 *ssa.Return) {
+			var path []xitem
+			for _, it := range items2 {
+				if it.Cond != nil {
+					path = append(path, xitem{PathItem: it, bind: call})
+				} else if _, isRet := it.In.(*ssa.Return); !isRet {
+					path = append(path, xitem{PathItem: it})
+				}
+			}
+			res := xitem{resOf: call}
+			if len(ret2.Results) == 1 && types.TypeString(ret2.Results[0].Type(), nil) == "error" {
+				rv := ret2.Results[0]
+				for i := 0; i < 4; i++ {
+					if phi, isPhi := rv.(*ssa.Phi); isPhi {
+						if nv := core.PhiOnPath(phi, blocks2); nv != nil {
+							rv = nv
+							continue
+						}
+					}
+					break
+				}
+				switch {
+				case core.IsNilConst(rv):
+					res.resNil = 1
+				case neverNilError(rv):
+					res.resNil = 2
+				default:
+					for _, it := range items2 {
+						bo, isBo := it.Cond.(*ssa.BinOp)
+						if it.Cond == nil || !isBo || (bo.Op != token.EQL && bo.Op != token.NEQ) {
+							continue
+						}
+						if (bo.X == rv && core.IsNilConst(bo.Y)) || (bo.Y == rv && core.IsNilConst(bo.X)) {
+							if (bo.Op == token.NEQ) == it.Truth {
+								res.resNil = 2
+							} else {
+								res.resNil = 1
+							}
+						}
+					}
+				}
+			}
+			path = append(path, res)
+			out = append(out, path)
+		})
+		return out, ok
 	}
 	atomOfX := func(it xitem) (string, bool, ssa.Value) {
 		if it.bind != nil {
@@ -173,7 +244,7 @@ func checkC09(p *core.Program, r *core.Report) {
 			var path []xitem
 			for _, it := range items2 {
 				if it.Cond != nil {
-					path = append(path, xitem{it, call})
+					path = append(path, xitem{PathItem: it, bind: call})
 				}
 			}
 			rv := core.ResultOf(ret2, 0)
@@ -199,7 +270,7 @@ func checkC09(p *core.Program, r *core.Report) {
 					}
 					rv, truth = u.X, !truth
 				}
-				path = append(path, xitem{core.PathItem{Cond: rv, Truth: truth}, call})
+				path = append(path, xitem{PathItem: core.PathItem{Cond: rv, Truth: truth}, bind: call})
 			}
 			out = append(out, path)
 		})
@@ -214,8 +285,13 @@ func checkC09(p *core.Program, r *core.Report) {
 					subs = hp
 				}
 			}
+			if call, isCall := it.In.(*ssa.Call); it.Cond == nil && isCall && inlined != nil && call.Call.StaticCallee() == inlined {
+				if ip, ok := inlinePaths(call); ok {
+					subs = ip
+				}
+			}
 			if subs == nil {
-				subs = [][]xitem{{xitem{it, nil}}}
+				subs = [][]xitem{{xitem{PathItem: it}}}
 			}
 			var next [][]xitem
 			for _, pre := range lists {
@@ -238,7 +314,35 @@ func checkC09(p *core.Program, r *core.Report) {
 		contradiction := false
 		reports, stores := 0, 0
 		approveAt, reportAt, storeAt, errAt := -1, -1, -1, -1
+		// a spliced helper path continues in the handler only on the branch that matches the error it returned
+		resFacts := map[*ssa.Call]int{}
+		for _, it := range items {
+			if it.resOf != nil {
+				resFacts[it.resOf] = it.resNil
+			}
+		}
+		for _, it := range items {
+			bo, isBo := it.Cond.(*ssa.BinOp)
+			if it.Cond == nil || it.bind != nil || !isBo || (bo.Op != token.EQL && bo.Op != token.NEQ) {
+				continue
+			}
+			var other ssa.Value
+			if core.IsNilConst(bo.Y) {
+				other = bo.X
+			} else if core.IsNilConst(bo.X) {
+				other = bo.Y
+			}
+			if call, isCall := other.(*ssa.Call); isCall && resFacts[call] != 0 {
+				nonNil := (bo.Op == token.NEQ) == it.Truth
+				if nonNil != (resFacts[call] == 2) {
+					return
+				}
+			}
+		}
 		for i, it := range items {
+			if it.resOf != nil {
+				continue
+			}
 			if it.Cond != nil {
 				a, val, _ := atomOfX(it)
 				if a != "" {
@@ -280,7 +384,7 @@ func checkC09(p *core.Program, r *core.Report) {
 			if storeAt >= 0 && i > storeAt {
 				break
 			}
-			if it.Cond == nil {
+			if it.Cond == nil || it.resOf != nil {
 				continue
 			}
 			a, val, _ := atomOfX(it)
@@ -370,7 +474,11 @@ func checkC09(p *core.Program, r *core.Report) {
 
 	// arguments of the report: (remote SKI of this connection, the id that was just stored)
 	fSKI := p.Field("ship", "ShipConnection", "remoteSKI")
-	core.EachInstr(h, func(in ssa.Instruction) {
+	reportFn := h
+	if inlined != nil {
+		reportFn = inlined
+	}
+	core.EachInstr(reportFn, func(in ssa.Instruction) {
 		if !core.IsInvokeOf(in, mReport) {
 			return
 		}
@@ -398,7 +506,7 @@ func checkC09(p *core.Program, r *core.Report) {
 		switch {
 		case s.Fn == ctor:
 			r.OK(R2, key, p.Pos(s.In.Pos()), "constructor")
-		case s.Fn == h:
+		case s.Fn == h || s.Fn == inlined:
 			_, _, v := core.StoredField(s.In)
 			if u, ok := v.(*ssa.UnOp); ok && u.Op == token.MUL {
 				r.OK(R2, key, p.Pos(s.In.Pos()), "stores the presented id")
@@ -475,6 +583,10 @@ func checkC09(p *core.Program, r *core.Report) {
 		}
 	}
 	r.Floor(R3, 2)
+	// ---- R5: the presented id reaches the comparison as it was sent
+	const R5 = "C09.R5 wire-text-unaltered"
+	r.Rule(R5, "no replacement is applied to the received message text before it is decoded (shared with C07.R1): an inverse transform that deletes bytes inside strings makes a differing (even ill-formed) presented id equal to the pinned one")
+	importRules(p, r, "C07", map[string]string{"C07.R1 no-context-free-rewriting": R5}, nil)
 	// ---- R4: one record per SKI, pinned only by the application
 	const R4 = "C09.R4 one-pin-record-per-ski"
 	r.Rule(R4, "the hub's get-or-create of the per-SKI service record looks the record up and inserts a new one in one critical section (else two first lookups create two records and the application's SetShipID lands on the one that is dropped); and no library package calls ServiceDetails.SetShipID - the stored id is the application's, never a value taken from mDNS or a handshake")
@@ -557,6 +669,19 @@ func checkC09(p *core.Program, r *core.Report) {
 		if nup == 0 {
 			r.Fail(R4, "insert into Hub.remoteServices", "", "no site creates service records")
 		}
+		ndel := 0
+		for _, fn := range p.FuncsOf("hub") {
+			fn := fn
+			core.EachInstr(fn, func(in ssa.Instruction) {
+				if isBuiltin(in, "delete") && isSvcMap(core.Common(in).Args[0]) {
+					ndel++
+					r.Fail(R4, "service record deleted in "+p.FnName(fn), p.Pos(in.Pos()), "the hub drops the per-SKI service record: a SHIP ID the application pinned on it is lost, the record is silently re-created empty and the next handshake accepts any id")
+				}
+			})
+		}
+		if ndel == 0 {
+			r.OK(R4, "service records are never deleted", "", "a pinned SHIP ID stays with its SKI")
+		}
 	}
 	npin := 0
 	for _, pk := range []string{"hub", "ship", "mdns", "ws", "cert"} {
@@ -614,6 +739,20 @@ func storedService(p *core.Program, v ssa.Value, depth int) bool {
 			}
 		}
 		return ok && n > 0
+	}
+	return false
+}
+
+// neverNilError: the value is the result of errors.New / fmt.Errorf.
+func neverNilError(v ssa.Value) bool {
+	if mi, ok := v.(*ssa.MakeInterface); ok {
+		v = mi.X
+	}
+	if c, ok := v.(*ssa.Call); ok {
+		switch core.CalleeName(&c.Call) {
+		case "errors.New", "fmt.Errorf":
+			return true
+		}
 	}
 	return false
 }
